@@ -516,11 +516,16 @@ func (sim) Generate(prop, tier string, seed uint64) *core.Plan {
 		group++
 		p.Ops = append(p.Ops, core.Op{K: "reopen", T: group})
 	}
-	if os.Getenv("VERIF_DBSIM_STRICT") != "" {
-		// development knob: also assert the two bbolt cursor behaviours that
-		// are only counted by default (see exec.go: strict, strictBwd)
+	// Two cursor behaviours of the pinned bbolt inside a dirty read-write
+	// transaction contradict "keys iterate in ascending byte order in both
+	// directions"; they are recorded as known findings. Backward completeness
+	// is always asserted (the situation is rare); completeness of an
+	// iterate-and-delete walk is asserted in one run in sixteen, because the
+	// run stops at the (known) violation and would otherwise lose the coverage
+	// of everything after it.
+	p.Cfg["strict_bwd"] = 1
+	if r.Chance(1, 16) || os.Getenv("VERIF_DBSIM_STRICT") != "" {
 		p.Cfg["strict_cdel"] = 1
-		p.Cfg["strict_bwd"] = 1
 	}
 	if anyAcross {
 		// see the comment on pregrow in exec.go
